@@ -13,4 +13,6 @@ def install_all(reg):
     succession_diagram.install(reg)
     succession_diagram._install_skip(reg)
     succession_diagram._install_skip2(reg)
+    succession_diagram._install_skip3(reg)
     algorithms.install(reg)
+    algorithms.install_skipnode(reg)
